@@ -31,6 +31,9 @@ CHECKS = {
  "C09": ("model_checking", "bounded-exhaustive exploration of every input form on compiled derived enums, reference interpreter stepped alongside",
          "odometer", "every generated enum (1-3 variants over 10 variant kinds x container configurations) x bare word, every candidate name in string form, non-string values, every nested-item sequence up to 2/3 in list form, and the absent form; selected variant/payload or error leaves must equal the interpreter's",
          "case rules re-implemented from their names; bounds: <= 3 variants, nested sequences <= 2 (quick) / 3 (thorough)", "DESIGN.md §4 C09"),
+ "C08": ("model_checking", "bounded-exhaustive metamorphic exploration: every item sequence x every partition into attributes x name assignments x interleaved foreign attributes on compiled receivers; reference forwarding filter",
+         "odometer", "for every item sequence up to 3/4 the single-attribute run is the reference; every split over 1..n attributes with every assignment of declared names and every interleaving with 11 unrelated attributes must give the identical value / identical error list, and `attrs` must equal the reference filter's selection (token-identical, ordered)",
+         "single-attribute behaviour is C01/C02's subject; path equality is syn::Path equality", "DESIGN.md §4 C08"),
 }
 PENDING = {}
 props = [json.loads(l) for l in open(os.path.join(V, "properties.jsonl"))]
